@@ -16,9 +16,14 @@ def run(tier, seed):
             # the same with the virtual clock moving during the rounds (scheduled purges expire between the frees)
             if an in ("default", "tiny") and (not q or wl in ("large", "mix", "huge")):
                 runs.append({"args": ["--workload", wl, "--rounds", "4" if q else "8", "--clock", "150"], "env": dict(env), "tag": an + ".clock"})
+    # objects of many arena blocks in one large arena: claims and releases that cross the 64-block fields of the arena bitmaps
+    for bld in (["rel"] if q else ["rel", "dbg"]):
+        runs.append({"args": ["--workload", "giant", "--rounds", "3" if q else "6"], "env": {"MIMALLOC_ARENA_RESERVE": "4GiB"}, "tag": "giant", "build": bld})
+        if not q:
+            runs.append({"args": ["--workload", "giant", "--rounds", "4", "--clock", "150"], "env": {"MIMALLOC_ARENA_RESERVE": "4GiB", "MIMALLOC_PURGE_DECOMMITS": "0"}, "tag": "giant.reset", "build": bld})
     return osfam.run_os("C11", tier, seed, runs, builds=["rel", "dbg"] if q else ["rel", "dbg", "sec"], own_guards=GUARDS, crash_decisive=False,
                         group=2 if q else 1,
-                        extra_cov={"workloads": ["small", "large", "huge", "mt", "mix"], "arena_configs": [a for a, _ in ARENAS],
+                        extra_cov={"workloads": ["small", "large", "huge", "mt", "mix", "giant"], "arena_configs": [a for a, _ in ARENAS],
                                    "rounds": [4] if q else [6, 12, 24]},
                         assumptions=["resident memory is the process RSS from /proc/self/statm (harness buffers are made resident up front); a tolerance of 96 pages per round is allowed",
                                      "allocator tables recognised by exact size (segment-map part) are exempt from AllReleased"])
